@@ -662,8 +662,10 @@ func (c S3ApiController) GetActions(ctx *fiber.Ctx) error {
 		})
 	}
 
+	// partial content only if the range was applied: an ignored range
+	// header (malformed, unsupported form) is answered with the whole object
 	status := http.StatusOK
-	if acceptRange != "" {
+	if acceptRange != "" && getstring(res.ContentRange) != "" {
 		status = http.StatusPartialContent
 	}
 
